@@ -20,6 +20,7 @@ EXPLANATION = ("Necessary structural clauses of C02 decided from MIR/HIR facts a
                "written with it. Value equality for any entry is not decided."
                " (R1 fold) the sign-folding helper shifts under a comparison with a constant bound; (R3 array-length-measured) the value sizing the array length column is `<array>.size` on every arm; (R10) reader property offsets are the running sum of the sizes before, read before the accumulator is advanced."
                ' Added later: (R11) writer and reader agree on where a variant ends; (R12) the inline prefix of an array is bounded by 31 before it is packed; (R13) entries equal on every sort key compare Equal; (R14) sizes are compared before they are narrowed (reader); (R15) every value handed to a store handle is registered in the store; (R8) the offset width comes from the total size only. (R16) the declared width of an integer column comes from the sizing pass alone. (R5) a window handed on as a plain range begins at offset() and spans count() entries; (R17) every value counted in Property::process is also sized on every path.')
+EXPLANATION += ' Batch 11: (R18) the data block and the offset table of a value store are both produced by walking sorted_indirect.'
 ASSUMPTIONS = ["byteorder read_int sign-extends", "rustc MIR/HIR construction and trait resolution", "reference table for the entry encoding"]
 
 SIGNED = r"<(i8|i16|i32|i64|i128|isize)>"
@@ -868,7 +869,40 @@ def r17_every_value_takes_part_in_the_sizing(cx, rule="R17"):
           "%d values counted in Property::process, each also reaches PropertySize::process on every path (not sized on some path: lines %s)" % (len(cs), bad or "none"))
 
 
+def r18_values_are_described_in_the_order_they_are_written(cx, rule="R18"):
+    """'byte arrays ... read back': a value id is the rank (indexed store) or the offset (plain store) of the value in the
+    *sorted* order, `sorted_indirect`. The data block and the table of end offsets that describes it are both produced by
+    walking `sorted_indirect` and looking each value up in `data` -- never by walking `data` itself, which is in insertion
+    order: the boundaries recorded would be those of another arrangement of the same bytes."""
+    F = cx.F
+    sites = [("IndexedValueStore", "write_data"), ("IndexedValueStore", "serialize_tail"), ("PlainValueStore", "write_data")]
+    for ty, item in sites:
+        fs = [x for x in F.find(impl_self="value_store::" + ty, item=item, closure=False)]
+        if len(fs) != 1:
+            raise AnchorLost("%s::%s: %d bodies" % (ty, item, len(fs)))
+        f = fs[0]
+        b = F.deep_body(f, only=r"value_store::", closures=True)
+        bodies = [b] + [F.body(c) for c in F.closures_of(f) if "blocks" in c]
+        looked_up = 0
+        direct = []
+        for bb in bodies:
+            for i, t in bb.calls(r"as std::ops::Index(Mut)?<usize>>::index(_mut)?$"):
+                o0 = bb.origins(t["args"][0])
+                if ("field", "data") in o0:
+                    if ("field", "sorted_indirect") in bb.origins(t["args"][1]):
+                        looked_up += 1
+                    else:
+                        direct.append(t.get("ln"))
+            for i, t in bb.calls(r"::iter$|IntoIterator>::into_iter$|::iter_mut$|::par_iter$|::into_par_iter$|::chunks|::windows$"):
+                o0 = bb.origins(t["args"][0], through_calls=False)
+                if ("field", "data") in o0 and ("field", "sorted_indirect") not in o0 and ("field", "0") in o0 | {("field", "0")} and not any(x[0] == "call" for x in o0):
+                    direct.append(t.get("ln"))
+        cx.ob(rule, "%s/%s.%s/walks-the-sorted-order" % (rule, ty, item), looked_up >= 1 and not direct, f,
+              "%s::%s takes each value from data[k] with k read from sorted_indirect (%d lookups; data walked or indexed directly at lines %s)" % (ty, item, looked_up, direct or "none"))
+
+
 RULES = [
+    ("R18", r18_values_are_described_in_the_order_they_are_written, 3),
     ("R17", r17_every_value_takes_part_in_the_sizing, 1),
     ("R16", r16_declared_width_comes_from_the_sizing_alone, 2),
     ("R15", r15_every_value_is_registered, 1),
